@@ -30,7 +30,7 @@ PROTO_TRUSTED = ["hashicorp/raft", "NATS delivery semantics as assumed", "Go sch
 PROPS = {
     "C01": dict(
         # Props.GoSegments: the model's segment lookups = the translated bodies of findSegment / findSegmentContains / findSegmentByBaseOffset
-        lean_modules=["Liftbridge.Props.C01", "Liftbridge.Props.Codec", "Liftbridge.Props.GoSegments", "Liftbridge.Props.GoAppend"],
+        lean_modules=["Liftbridge.Props.C01", "Liftbridge.Props.Codec", "Liftbridge.Props.GoSegments", "Liftbridge.Props.GoAppend", "Liftbridge.Props.GoSplit"],
         gen_sources=LOG_SOURCES,
         runs=[dict(go_pkg="./server/commitlog", test="TestVerifC01"), dict(go_pkg="./server/commitlog", test="TestVerifC01Codec")],
         level="proof",
@@ -68,8 +68,9 @@ PROPS = {
     ),
     "C14": dict(
         # Props.GoEnvelope: the model's Envelope.check = the translated body of checkEnvelope, for every byte string
-        lean_modules=["Liftbridge.Props.C14", "Liftbridge.Props.GoEnvelope"],
-        gen_sources=["server/protocol/envelope.go", "server/protocol/envelope.go:gomini:checkEnvelope"],
+        # Props.GoReplication: the replication handlers never panic on a payload (request side) / panic only on a failing append (response side)
+        lean_modules=["Liftbridge.Props.C14", "Liftbridge.Props.GoEnvelope", "Liftbridge.Props.GoReplication"],
+        gen_sources=["server/protocol/envelope.go", "server/protocol/envelope.go:gomini:checkEnvelope", "server/partition.go:gomini:partition.handleReplicationRequest", "server/partition.go:gomini:partition.handleReplicationResponse"],
         runs=[dict(go_pkg="./server/protocol", test="TestVerifC14"), dict(go_pkg="./server", test="TestVerifC14Server"), dict(go_pkg="./server", test="TestVerifC14ServerSmallLimit"), dict(go_pkg="./server", test="TestVerifC14BatchWait")],
         level="proof",
         assumptions=[
@@ -247,7 +248,7 @@ PROPS = {
     "C02": dict(
         # Props.GoEpochCache: the epoch-cache functions of the model = the translated bodies of leader_epoch_cache.go (GoMini)
         # Props.GoPartition: the reconciliation branches of the protocol model = the translated bodies of truncateUncommitted / truncateToHW
-        lean_modules=["Liftbridge.Props.C02", "Liftbridge.Props.GoEpochCache", "Liftbridge.Props.GoPartition", "Liftbridge.Props.GoCommit"],
+        lean_modules=["Liftbridge.Props.C02", "Liftbridge.Props.GoEpochCache", "Liftbridge.Props.GoPartition", "Liftbridge.Props.GoCommit", "Liftbridge.Props.GoReplication"],
         gen_sources=["server/partition.go", "server/replicator.go", "server/metadata.go", "server/commitlog/commitlog.go", "server/commitlog/leader_epoch_cache.go"],
         runs=[dict(go_pkg="./server/commitlog", test="TestVerifC02"), dict(go_pkg="./server", test="TestVerifC02ISR"), dict(go_pkg="./server", test="TestVerifC02Terms"),
               dict(go_pkg="./server", test="TestVerifC02Cluster"), dict(go_pkg="./server", test="TestVerifC02Reconcile"), dict(go_pkg="./server", test="TestVerifC02IsrPersist"),
